@@ -4,7 +4,7 @@ from __future__ import annotations
 from .model import MNode, MTree
 from .world import World
 
-LABELS = "abcdefgh"
+LABELS = ["a", "b", "c", "d", "e", "f", "g", "h", "\u00e4", "\u65e5\u672c", "e\u0301"]
 IDS = ["#x0", "#x1", "#x2", "#x3", 9001, 9002, 0, ""]
 KINDS = ["k0", "k1", "k2", ""]  # the empty string is a legal kind
 
@@ -56,6 +56,8 @@ def draw_cfg(rng, prop: str, tier: str, overrides=None) -> dict:
     cfg["slots"] = slots
     n_labels = rng.choice([2, 3, 3, 4, 6, 8])
     cfg["labels"] = list(LABELS[:n_labels])
+    if rng.random() < 0.25:
+        cfg["labels"] += LABELS[8:]  # non-ASCII labels (file encoding, zip members)
     if primary in ("hook", "thook"):
         # case variants are clones under the case-insensitive id callback
         cfg["labels"] = cfg["labels"][:3] + [c.upper() for c in cfg["labels"][:2]]
